@@ -59,6 +59,7 @@ pub fn run_c14(cx: &mut Cx) {
     let holder = cx.node("holder");
     let key = pool_key(cx.ch.forced("pool_key", POOL_SIZE, cx.run_index));
     let (n, hidden) = combo(cx.ch.forced("combo", 57, cx.run_index.wrapping_mul(23)));
+    if cx.run_index % 8 == 5 { return grind(cx, issuer, holder, key); }
     let trusted = cx.ch.chance("trusted_party", 1, 3);
     let msgs = gen_msgs(cx, n, false);
     // both index lists are sets: they are also given descending / rotated / shuffled (the
@@ -134,6 +135,30 @@ pub fn run_c14(cx: &mut Cx) {
             });
         });
         mismatches(cx, issuer, holder, key.clone(), req, msgs.clone(), trusted);
+    });
+    cx.run();
+}
+
+/// Every eighth run: issuance proofs of a one-attribute credential (with a trusted-party
+/// commitment) are generated until one chosen Fiat-Shamir value of the frame (a different one per
+/// run) has a leading zero octet; the issuer must accept that honest request like any other.
+fn grind(cx: &mut Cx, issuer: NodeId, holder: NodeId, key: Arc<KeyMat>) {
+    let target = cx.run_index / 8;
+    let cap = if cx.thorough { 2500 } else { 600 };
+    let msgs = vec![gen_attr(cx.run_seed, 0, 0).value];
+    let (k1, m1) = (key.clone(), msgs.clone());
+    cx.step(holder, "grind-commit+prove", StepOpts::default(), move || {
+        let mut last: Option<HolderCommit> = None;
+        let (_, tries, path, hit) = grind_short_hash(|| { let hc = holder_commit_and_prove(&k1, &m1, &[0], true); let j = hc.zk_json.clone(); last = Some(hc); j }, target, cap);
+        (last, tries, path, hit)
+    }, move |cx, st| {
+        let Ok((Some(hc), tries, path, hit)) = st.out else { cx.violation("C14", "generate_proof/failed".into(), "while grinding".into()); return; };
+        cx.add("n.grinding_generations", tries as u64);
+        if !hit { cx.count("probe.grinding_gave_up"); cx.log(format!("no short {path} in {tries} generations")); return; }
+        cx.count("probe.honest_proof_with_leading_zero_octet_in_a_challenge");
+        cx.log(format!("{path} has a leading zero octet after {tries} generations"));
+        let req = IssueRequest { pk: key.pk.clone(), bases: key.bases.0[..1].to_vec(), tp_cpk: Some(key.tp_cpk.clone()), c_value: hc.c_value.clone(), ct_value: hc.ct_value.clone(), zk_json: hc.zk_json.clone(), revealed: vec![], revealed_idx: vec![], hidden: vec![0] };
+        deliver_request(cx, issuer, key.clone(), req, format!("none:short_hash_value:{}", generic_path(&path)), true);
     });
     cx.run();
 }
